@@ -4,7 +4,7 @@
 // (the sources are compiled with `-include sync/shim.h`).
 //
 //   reset
-//   scen <prim> <init> <sec> <nsec> <quantum_ns> <spur> <eintr> [F:<n> | N:<n>] T:<ret>:<op>,<op>,... T:<ret>:...   -> ok <threads>
+//   scen <prim> <init> <sec> <nsec> <quantum_ns> <spur> <eintr> [F:<n>] [N:<n>] T:<ret>:<op>,<op>,... T:<ret>:...   -> ok <threads>
 //        prim = mtx | sem | sig | mon | thr ; init = initial count (sem) / initially set (sig)
 //        ops  = lock try-<skip> unlock | signal wait twait-<ms> trywait | set reset wait twait-<ms> |
 //               lock try-<skip> unlock wait twait-<ms> set | start-<j> mstart-<j> (member-function overload) xstart-<8j+k> (same on object j with the body of program k) join-<j> dtor-<j> (~Thread) | destroy (sig, mon: delete the object)
@@ -225,17 +225,17 @@ static bool parseScen(HxLine& l)
   if(clkNsec < 0 || clkNsec >= 1000000000L || quantum <= 0 || initVal < 0) { prim = P_NONE; return false; }
   createFail = 0; enosys = 0;
   int first = 8;
-  if(strncmp(l.tok[8], "F:", 2) == 0)
+  if(strncmp(l.tok[first], "F:", 2) == 0)
   {
-    char* e; long n = strtol(l.tok[8] + 2, &e, 10);
-    if(*e || e == l.tok[8] + 2 || n < 0) { prim = P_NONE; return false; }
-    createFail = (int)n; first = 9;
+    char* e; long n = strtol(l.tok[first] + 2, &e, 10);
+    if(*e || e == l.tok[first] + 2 || n < 0) { prim = P_NONE; return false; }
+    createFail = (int)n; ++first;
   }
-  else if(strncmp(l.tok[8], "N:", 2) == 0)   // sem_timedwait may report ENOSYS n times (implementation-only runs: not in the model)
+  if(first < l.ntok && strncmp(l.tok[first], "N:", 2) == 0)   // sem_timedwait may report ENOSYS n times (alternative 3 of its step)
   {
-    char* e; long n = strtol(l.tok[8] + 2, &e, 10);
-    if(*e || e == l.tok[8] + 2 || n < 0 || pr != P_SEM) { prim = P_NONE; return false; }
-    enosys = (int)n; first = 9;
+    char* e; long n = strtol(l.tok[first] + 2, &e, 10);
+    if(*e || e == l.tok[first] + 2 || n < 0 || pr != P_SEM) { prim = P_NONE; return false; }
+    enosys = (int)n; ++first;
   }
   if(first >= l.ntok) { prim = P_NONE; return false; }
   for(int i = first; i < l.ntok; ++i)
